@@ -9,5 +9,6 @@ pub mod mkfs;
 pub mod names;
 pub mod ops;
 pub mod runner;
+pub mod sd;
 pub mod selftest;
 pub mod simdisk;
